@@ -6,8 +6,8 @@ func adjust_axis(crs *SR, denorm bool, point []float64) ([]float64, error) {
 	var v float64
 	var t int
 	for i := 0; i < 3; i++ {
-		if denorm && i == 2 && len(point) == 2 {
-			continue
+		if i == 2 && len(point) == 2 {
+			continue // There is no third coordinate to adjust.
 		}
 		if i == 0 {
 			v = point[0]
